@@ -128,7 +128,25 @@ func runC20(c *core.Ctx) {
 				bad = p.InstrPos(ins)
 			}
 		})
-		c.Check(bad == "" && n > 0, "R5", tn+".Matches/absence-guard", p.Pos(f.Pos()), "reflect-based test only for values that are present in the library's sense (not untyped nil, not a nil pointer)", "the pattern test at "+bad+" is not guarded by Maybe.Just(value) being present: typed nil pointers (absent values) are matched by kind")
+		// ... and an absent value is rejected: every return on the absent edge yields false
+		for _, rc := range core.ReturnCases(f) {
+			absent := false
+			for _, cnd := range rc.Facts {
+				nrm := core.Normalize(cnd)
+				if inv, isC := nrm.V.(*ssa.Call); isC && inv.Call.IsInvoke() {
+					m := inv.Call.Method.Name()
+					if (m == "IsNil" && nrm.True || m == "IsPresent" && !nrm.True) && c20isJustOf(inv.Call.Value, f.Params[1]) {
+						absent = true
+					}
+				}
+			}
+			if absent {
+				if k, isK := core.Resolve(rc.Vals[0]).(*ssa.Const); !isK || isTrueConst(k) {
+					bad = p.InstrPos(rc.Ret) + " (an absent value is accepted by the pattern)"
+				}
+			}
+		}
+		c.Check(bad == "" && n > 0, "R5", tn+".Matches/absence-guard", p.Pos(f.Pos()), "reflect-based test only for values that are present in the library's sense (not untyped nil, not a nil pointer); absent values rejected", "the pattern test at "+bad+" is not guarded by Maybe.Just(value) being present: typed nil pointers (absent values) are matched by kind")
 	}
 	if f := p.Func(p.Fpgo, "Either"); f == nil {
 		c.Unknown("R5", "Either", "-", "function not found")
